@@ -9,6 +9,7 @@ CONSTANTS
   MaxOps = 60
   EmitMode = "state"
   HistViews = FALSE
+  OrderedBegin = FALSE
 VIEW View0
 INVARIANTS TypeOK RingConsistent InOrder NoDirty PrefixRule CompleteKF AtomicKF CleanupSafe SeekConsistentKF SeekKFExact EmitState
 PROPERTIES Stable
